@@ -272,8 +272,29 @@ def step(g):
         return ("raised", exc_names(e)[0], str(e)[:100])
 
 
-def sequential(defn, spec):
-    with observed_warnings():
+class caller_filters:
+    """The caller's warnings configuration for one run: every warning recorded ('always') or every warning an error ('error').  leaked is set
+    when the filter list the caller installed is not the one in force when the run is over (generators all finished or abandoned)."""
+    def __init__(self, mode):
+        self.mode, self.leaked = mode, None
+
+    def __enter__(self):
+        import warnings
+        self._cm = warnings.catch_warnings(record=self.mode == "always")
+        self._cm.__enter__()
+        warnings.simplefilter(self.mode)
+        self._snap = list(warnings.filters)
+        return self
+
+    def __exit__(self, *exc):
+        import warnings
+        if self._snap is not None and list(warnings.filters) != self._snap:
+            self.leaked = [f for f in warnings.filters if f not in self._snap][:3] or "entries removed"
+        return self._cm.__exit__(*exc)
+
+
+def sequential(defn, spec, mode="always"):
+    with caller_filters(mode):
         g = make_gen(defn, spec)
         out = []
         while True:
@@ -307,14 +328,17 @@ def _task_interleave(task):
         before = canon_definition(defn)
         fp_before = package_footprint()
         specs = stream_specs()
-        seqs = {s[0]: sequential(defn, s) for s in specs}
+        seqs_by_mode = {mode: {s[0]: sequential(defn, s, mode) for s in specs} for mode in ("always", "error")}
         states = set()
         with case_alarm(1800):
             for combo in task["combos"]:
+                # the caller's warnings configuration: record everything, or (every other combination) turn every warning into an error
+                mode = "error" if sum(combo) % 2 else "always"
+                seqs = seqs_by_mode[mode]
                 chosen = [specs[i] for i in combo]
                 counts = [min(len(seqs[s[0]]), task["max_items"]) for s in chosen]
                 for path in lattice_paths(counts):
-                    with observed_warnings():
+                    with caller_filters(mode) as cf:
                         gens = [make_gen(defn, s) for s in chosen]
                         outs = [[] for _ in chosen]
                         posv = [0] * len(chosen)
@@ -323,6 +347,15 @@ def _task_interleave(task):
                             posv[gi] += 1
                             states.add((combo, tuple(posv)))
                             t.transitions += 1
+                        if all(c == len(seqs[s[0]]) for c, s in zip(counts, chosen)):
+                            for g in gens:
+                                g.close()   # all ran to their end (or are closed now): nothing of theirs may stay behind
+                        else:
+                            cf._snap = None
+                    if cf._snap is not None and cf.leaked:
+                        t.violation({"kind": "warnings-filters-left-changed", "k": len(chosen)},
+                                    {"combo": list(combo), "streams": [s[0] for s in chosen], "path": list(path), "max_items": task["max_items"], "warnings": mode},
+                                    observed=str(cf.leaked)[:300], note="after all generators have finished, the process-wide warnings filter list is not the caller's any more")
                     t.evals += 1
                     t.traces += 1
                     bad = [i for i, s in enumerate(chosen) if outs[i] != seqs[s[0]][:counts[i]]]
@@ -330,7 +363,7 @@ def _task_interleave(task):
                     if bad:
                         i = bad[0]
                         t.violation({"kind": "interleaving-interference", "k": len(chosen)},
-                                    {"combo": list(combo), "streams": [s[0] for s in chosen], "path": list(path), "max_items": task["max_items"]},
+                                    {"combo": list(combo), "streams": [s[0] for s in chosen], "path": list(path), "max_items": task["max_items"], "warnings": mode},
                                     expected=[x[0] for x in seqs[chosen[i][0]][:counts[i]]], observed=[x[0] for x in outs[i]],
                                     note=f"generator #{i} ({chosen[i][0]}) yields differently under this interleaving than sequentially")
                 # a generator that is abandoned part-way (closed explicitly, or dropped and garbage collected) leaves the others alone
@@ -338,7 +371,7 @@ def _task_interleave(task):
                     import gc
                     for ka in range(counts[0] + 1):
                         for how in ("close", "drop"):
-                            with observed_warnings():
+                            with caller_filters(mode):
                                 ga, gb = make_gen(defn, chosen[0]), make_gen(defn, chosen[1])
                                 first_b = [step(gb)] if counts[1] else []
                                 for _ in range(ka):
@@ -444,7 +477,7 @@ def run(ctx):
                   "vs. per-packet solo results on fresh definitions; (ii) k=2: every ordered pair of 7 generators "
                   "(two with combine_segmented_packets, one over a scripted socket, one with a per-call root container) x ALL lattice-path interleavings of their next() calls up to exhaustion, and one generator abandoned (closed, or dropped and collected) after every number of items while the other runs on; "
                   f"k=3: {len(triples)} triples with <= {2 if ctx.quick else 3} steps each, all interleavings; (iii) definition canon + written XML unchanged; "
-                  "(iv) package footprint unchanged; (v) sibling definitions built with the public constructors that differ only in how the discriminating literal was handed over "
+                  "(iv) package footprint unchanged, and the caller's warnings filter list back in force once all generators of an interleaving have finished (the caller records every warning, or - every other combination - turns every warning into an error); (v) sibling definitions built with the public constructors that differ only in how the discriminating literal was handed over "
                   f"(1, 1.0, True, '1', '1.0', 'True', '01', 2), generators advanced in lock step over one stream: {len(orders)} orders of 3 (and all 8 in both directions)"),
         "rule": ("one evaluation = one stream run or one complete interleaving; states = distinct (generator combination, position vector) pairs; "
                  "transitions = next() calls; non-trivial = streams with >= 2 distinct packets and generator combinations"),
